@@ -9,6 +9,7 @@ package common
 // a connection failure stays one (C04: failover), anything else does not become one (C02: no re-dispatch).
 //@ func MakeUserFriendlyError
 //@   property C02 C04 C05
+//@   safety
 //@   replay common_friendlyerror@internal/adapter/proxy/core : errorsAs(err, "net.Error") ; errorsIs(err, context.Canceled) ; errorsIs(err, context.DeadlineExceeded) ; errorsIs(err, io.EOF)
 //@   ensures (err == nil) == (res == nil)
 //@   uses operr_is_neterr as_val_is_neterr no_ptr_errno as_val_subchain asval_is_sub
@@ -29,15 +30,18 @@ package common
 
 //@ func containsDotDot
 //@   property C16
+//@   safety
 //@   loop 1 invariant forall di int :: 0 <= di && di < i$1 ==> !(splitOf(p, "/")[di] == ".." || splitOf(p, "/")[di] == ".")
 //@   ensures res == hasDotSeg(p)
 
 //@ func containsEncodedDotDot
 //@   property C16
+//@   safety
 //@   ensures res == encDotSeg(p)
 
 //@ func BuildTargetURL
 //@   property C01 C16
+//@   safety
 //@   requires r != nil && r.URL != nil && endpoint != nil && endpoint.URL != nil
 //@   ensures res != nil && fresh(res)
 //@   ensures res.Scheme == endpoint.URL.Scheme && res.Host == endpoint.URL.Host && res.User == endpoint.URL.User
